@@ -74,6 +74,16 @@ type Scenario struct {
 	MaxConnDur bool `json:"max_conn_duration,omitempty"`
 	// Closer: one more thread calls HostClient.CloseIdleConnections() once, at any moment of the run
 	Closer bool `json:"closer,omitempty"`
+	// ShortReadTO: ReadTimeout / WriteTimeout are 2.5 s, shorter than the request timeout of 4 s: a call that spent part of
+	// its request timeout waiting for a connection must still return at the request timeout, not a full read timeout later
+	ShortReadTO bool `json:"short_read_timeout,omitempty"`
+}
+
+func (sc Scenario) readTO() time.Duration {
+	if sc.ShortReadTO {
+		return 2500 * time.Millisecond
+	}
+	return readTimeout
 }
 
 func (sc Scenario) reqTO() time.Duration {
@@ -184,8 +194,8 @@ func (c *sconn) Read(p []byte) (int, error) {
 		}
 		return len(c.out) > 0 || c.eof || c.closed || (c.hasDL && s.NowLocked() >= c.readDL)
 	})
-	if waited := verifrt.VNow() - start; waited > readTimeout && verifrt.NoSlack() {
-		c.w.violate("connection %d: a read blocked for %v, longer than the read timeout %v", c.id, waited, readTimeout)
+	if waited := verifrt.VNow() - start; waited > c.w.job.Sc.readTO() && verifrt.NoSlack() {
+		c.w.violate("connection %d: a read blocked for %v, longer than the read timeout %v", c.id, waited, c.w.job.Sc.readTO())
 	}
 	switch {
 	case c.closed:
@@ -416,7 +426,7 @@ func (d dialer) AddTLS(conn network.Conn, tlsConfig *tls.Config) (network.Conn, 
 func (w *World) Body() func() {
 	return func() {
 		job := w.job
-		o := &http1.ClientOptions{Dialer: dialer{w}, MaxConns: job.Sc.MaxConns, ReadTimeout: readTimeout, WriteTimeout: readTimeout, DialTimeout: time.Second, MaxIdleConnDuration: 10 * time.Second}
+		o := &http1.ClientOptions{Dialer: dialer{w}, MaxConns: job.Sc.MaxConns, ReadTimeout: job.Sc.readTO(), WriteTimeout: job.Sc.readTO(), DialTimeout: time.Second, MaxIdleConnDuration: 10 * time.Second}
 		if job.Sc.MaxConnDur {
 			o.MaxConnDuration = 500 * time.Millisecond
 		}
